@@ -16,6 +16,9 @@ from vlib import Infra
 ALPHA = [0x00, 0x01, 0x7f, 0x80, 0x81, 0x82, 0xb7, 0xb8, 0xb9, 0xbf, 0xc0, 0xc1, 0xc2, 0xf7, 0xf8, 0xff]
 SCALARS = ["u8", "u16", "u32", "u64", "big", "bool", "bytes", "string", "arr1", "arr2", "arr20", "raw", "iface"]
 STRUCTS = ["Inner", "Nested", "OptS", "OptP", "TailS", "NilS", "NilX", "PtrS", "Rows", "ArrU"]
+# structs with rlp:"-" / unexported fields before, between and after optional / tail / nil-tagged fields, an embedded struct and
+# a pointer to a struct with optional fields inside, structs whose only codec field is optional
+IGNORED = ["IgA", "IgB", "IgT", "IgN", "OptIn", "IgE", "OnlyOpt", "IgOnly"]
 CHAIN = ["tx", "log", "receipt", "sreceipt", "blockinfo", "account", "slim", "header"]
 
 
@@ -130,7 +133,9 @@ def run(c):
               "(truncate at k, append, +-1 on every header byte, one element more/less in any list, and well-formed non-canonical forms: "
               "wrapped single byte, long form for a short payload, leading zero in the length - enclosing headers recomputed) at every "
               "position, also stacked, (d) headers claiming up to 2^64-1, (e) TLC-chosen boundary values of a fixed schema set incl. the wire "
-              "structs of Transaction/Receipt/ReceiptForStorage/BlockInfo/Log/StateAccount/Header with their encodings and mutations, "
+              "structs of Transaction/Receipt/ReceiptForStorage/BlockInfo/Log/StateAccount/Header and 8 structs with rlp:\"-\" / unexported fields "
+              "before, between and after optional / tail / nil-tagged fields (ignored field's zero-ness opposite to its neighbours'; encoded, "
+              "decoded into fresh and into prepopulated values) with their encodings and mutations, "
               "(f) every sequence of <= %d Stream calls on about %d inputs x 3 limits x NewStream/NewListStream; each printed transition "
               "carries the specified outcome of every entry point and is executed on the real lib/rlp + types: EncodeToBytes/Encode/"
               "EncodeToReader/EncoderBuffer = Enc, DecodeBytes/Decode/Stream.Decode into interface{}, RawValue and %d Go types, Split*/"
@@ -140,7 +145,7 @@ def run(c):
               "strings go through the real decoders and TLC must explain every recorded outcome (trace validation). evaluations = real calls "
               "compared; distinct non-trivial = distinct byte strings / values / call histories other than a plain rejection of the first "
               "byte's type"
-              % (4 if th else 3, 10 if th else 6, 47 if th else 28, len(SCALARS) + len(STRUCTS) + len(CHAIN), 20000 if th else 2000))
+              % (4 if th else 3, 10 if th else 6, 47 if th else 28, len(SCALARS) + len(STRUCTS) + len(IGNORED) + len(CHAIN), 20000 if th else 2000))
     c.assumptions = [
         "the input limit is set (DecodeBytes, bytes.Reader, explicit limit): rlp.Decode / NewStream(r, 0) over a plain reader allocate what a header claims (documented upstream; tx_journal.go and snapshot/journal.go use that mode on local files) - not covered",
         "byte strings shorter than 2^24 bytes; declared sizes up to 2^64-1 are compared as digit strings, never as TLC integers",
@@ -162,7 +167,7 @@ def run(c):
 
     # (a) byte strings over the boundary alphabet
     run_model(c, "strings", "MC_RLPStrings",
-              {"Alphabet": tset(ALPHA + extra), "Names": sset(SCALARS + STRUCTS + (["tx", "log", "account", "slim"] if th else []))},
+              {"Alphabet": tset(ALPHA + extra), "Names": sset(SCALARS + STRUCTS + IGNORED + (["tx", "log", "account", "slim"] if th else []))},
               {"N": 4 if th else 3}, ["Inv", "TInv"], "TestStrings")
 
     # (b)+(c) trees and mutations
@@ -204,7 +209,7 @@ def run(c):
         mut_all = ["u64", "big", "bool", "bytes", "arr1", "arr2", "Inner", "OptS", "NilX"]
         mut_base = ["Nested", "OptP", "TailS", "NilS", "PtrS", "Rows", "ArrU", "tx", "account", "log"]
     run_model(c, "typed", "MC_RLPTyped",
-              {"Names": sset(SCALARS + STRUCTS + CHAIN), "MutBase": sset(mut_base), "MutAll": sset(mut_all)},
+              {"Names": sset(SCALARS + STRUCTS + IGNORED + CHAIN), "MutBase": sset(mut_base), "MutAll": sset(mut_all + IGNORED)},
               {"MaxMut": 2 if th else 1, "TruncEvery": 40}, ["Inv"], "TestTyped", view=True)
 
     # (d) adversarial headers + allocation guard
